@@ -34,8 +34,8 @@ def check(ctx) -> Result:
     if sim is None:
         raise AnalysisError("Simulator not found")
     pin, pout, simulate = sim.methods["_process_inputs"], sim.methods["_process_outputs"], sim.methods["simulate"]
-    rv_validate.loop_validation(ctx, res, pin, "inputs", "input_modes")
-    rv_validate.loop_validation(ctx, res, pout, "outputs", "input_modes")
+    rv_validate.loop_validation(ctx, res, pin, "inputs", "self.circuit.input_modes")
+    rv_validate.loop_validation(ctx, res, pout, "outputs", "self.circuit.input_modes")
     for f in (pin, pout):
         im = [a for a in walk_no_nested(f.node) if isinstance(a, ast.Assign) and src(a.targets[0]) == "input_modes"]
         res.add(bool(im) and src(im[0].value) == "self.circuit.input_modes", "V-states-validated", f"{f.qualname}:input_modes", f.site(), f.qualname,
@@ -77,37 +77,52 @@ def check(ctx) -> Result:
     # permanent
     calc = ctx.func(PERM, "Permanent.calculate")
     part = ctx.func(PERM, "partition")
-    ret = [r for r in walk_no_nested(calc.node) if isinstance(r, ast.Return)][0]
-    defs = {a.targets[0].id: a.value for a in walk_no_nested(calc.node) if isinstance(a, ast.Assign) and isinstance(a.targets[0], ast.Name)}
-    def closure(e):
-        names = {x.id for x in ast.walk(e) if isinstance(x, ast.Name)}
-        for _ in range(3):
-            for nme in list(names):
-                if nme in defs:
-                    names |= {x.id for x in ast.walk(defs[nme]) if isinstance(x, ast.Name)}
-        return names
-    rv = ret.value
+    from ..inline import inlined
+    calc_fn = inlined(calc.node)
+    rets0 = [r for r in walk_no_nested(calc_fn) if isinstance(r, ast.Return) and r.value is not None]
+    rv = rets0[0].value if len(rets0) == 1 else None
     if not (isinstance(rv, ast.BinOp) and isinstance(rv.op, ast.Div)):
-        raise AnalysisError("Permanent.calculate: return is not a quotient")
-    dn = closure(rv.right)
-    res.add({"in_state", "out_state"} <= dn and "factorial" in dn, "N-factorial-normalisation", "Permanent.calculate", calc.site(ret), calc.qualname, "both occupation lists reach the factorial divisor",
-            f"the normalisation does not depend on both occupation lists (depends on {sorted(dn & {'in_state', 'out_state'})})", construct=src(rv.right))
-    pc = [c for c in ast.walk(rv.left) if isinstance(c, ast.Call) and src(c.func) == "partition"]
-    res.add(bool(pc) and [src(a) for a in pc[0].args] == ["unitary", "in_state", "out_state"], "M4-rows-outputs-cols-inputs", "Permanent.calculate:partition-args", calc.site(ret), calc.qualname, "partition(unitary, in_state, out_state)",
-            "input and output occupations are passed to partition in the wrong order", construct=src(pc[0]) if pc else "")
-    rets = [r for r in walk_no_nested(part.node) if isinstance(r, ast.Return)]
-    ix = [c for c in ast.walk(rets[0].value) if isinstance(c, ast.Call) and src(c.func).endswith("ix_")]
+        res.frozen(False, "N-factorial-normalisation", "Permanent.calculate", calc.site(), calc.qualname, "", "return value is not recognised as permanent / normalisation", construct=src(rv)[:120] if rv is not None else "")
+    else:
+        dn = {x.id for x in ast.walk(rv.right) if isinstance(x, ast.Name)}
+        res.add({"in_state", "out_state"} <= dn and "factorial" in dn, "N-factorial-normalisation", "Permanent.calculate", calc.site(rets0[0]), calc.qualname, "both occupation lists reach the factorial divisor",
+                f"the normalisation does not depend on both occupation lists (depends on {sorted(dn & {'in_state', 'out_state'})})", construct=src(rv.right))
+        pc = [c for c in ast.walk(rv.left) if isinstance(c, ast.Call) and src(c.func) == "partition"]
+        if not pc:
+            res.frozen(False, "M4-rows-outputs-cols-inputs", "Permanent.calculate:partition-args", calc.site(), calc.qualname, "", "call of partition not recognised in the numerator", construct=src(rv.left)[:120])
+        else:
+            pparams = part.params()
+            bound = dict(zip(pparams, [src(a) for a in pc[0].args]))
+            bound.update({k.arg: src(k.value) for k in pc[0].keywords if k.arg})
+            res.add(bound.get("in_state") == "in_state" and bound.get("out_state") == "out_state" and bound.get(pparams[0]) == "unitary", "M4-rows-outputs-cols-inputs", "Permanent.calculate:partition-args", calc.site(rets0[0]), calc.qualname, "partition(unitary, in_state, out_state)",
+                    "input and output occupations are passed to partition in the wrong order", construct=src(pc[0]))
+    part_fn = inlined(part.node)
+    rets = [r for r in walk_no_nested(part_fn) if isinstance(r, ast.Return) and r.value is not None]
+    ix = [c for r in rets for c in ast.walk(r.value) if isinstance(c, ast.Call) and src(c.func).endswith("ix_") and len(c.args) == 2]
     if not ix:
-        raise AnalysisError("partition: np.ix_ call not found")
-    rown, coln = src(ix[0].args[0]), src(ix[0].args[1])
-    aug = {}
-    for a in walk_no_nested(part.node):
-        if isinstance(a, ast.AugAssign) and isinstance(a.target, ast.Name):
-            aug.setdefault(a.target.id, set()).update(x.id for x in ast.walk(a.value) if isinstance(x, ast.Name))
-    params = part.params()
-    good = params[:3] == ["unitary", "in_state", "out_state"] and "out_state" in aug.get(rown, set()) and "in_state" not in aug.get(rown, set()) and "in_state" in aug.get(coln, set()) and "out_state" not in aug.get(coln, set())
-    res.add(good, "M4-rows-outputs-cols-inputs", "partition", part.site(), part.qualname, "rows repeated by output occupations, columns by input occupations (U[out, in])",
-            f"sub-matrix rows come from {sorted(aug.get(rown, set()) & {'in_state', 'out_state'})} and columns from {sorted(aug.get(coln, set()) & {'in_state', 'out_state'})}: the transpose amplitude is computed", construct=src(rets[0].value))
+        res.frozen(False, "M4-rows-outputs-cols-inputs", "partition", part.site(), part.qualname, "", "np.ix_(rows, cols) selection not recognised", construct="")
+    else:
+        deps = {}
+        for a in walk_no_nested(part_fn):
+            if isinstance(a, ast.AugAssign) and isinstance(a.target, ast.Name):
+                deps.setdefault(a.target.id, set()).update(x.id for x in ast.walk(a.value) if isinstance(x, ast.Name))
+            elif isinstance(a, ast.Assign) and len(a.targets) == 1 and isinstance(a.targets[0], ast.Name):
+                deps.setdefault(a.targets[0].id, set()).update(x.id for x in ast.walk(a.value) if isinstance(x, ast.Name))
+            elif isinstance(a, ast.Call) and isinstance(a.func, ast.Attribute) and a.func.attr in ("extend", "append") and isinstance(a.func.value, ast.Name):
+                deps.setdefault(a.func.value.id, set()).update(x.id for g in a.args for x in ast.walk(g) if isinstance(x, ast.Name))
+        def occ(e):
+            d = {x.id for x in ast.walk(e) if isinstance(x, ast.Name)}
+            for nme in list(d):
+                d |= deps.get(nme, set())
+            return d & {"in_state", "out_state"}
+        ro, co = occ(ix[0].args[0]), occ(ix[0].args[1])
+        sub_ok = any(isinstance(x, ast.Subscript) and src(x.value) == part.params()[0] and ix[0] in list(ast.walk(x.slice)) for r in rets for x in ast.walk(r.value))
+        if ro == {"out_state"} and co == {"in_state"} and sub_ok:
+            res.ok("M4-rows-outputs-cols-inputs", "partition", part.site(), part.qualname, "rows repeated by output occupations, columns by input occupations (U[out, in])")
+        elif not ro or not co or not sub_ok:
+            res.frozen(False, "M4-rows-outputs-cols-inputs", "partition", part.site(), part.qualname, "", f"row/column index lists not recognised (rows from {sorted(ro)}, columns from {sorted(co)})", construct=src(rets[0].value))
+        else:
+            res.bad("M4-rows-outputs-cols-inputs", "partition", part.site(), part.qualname, f"sub-matrix rows come from {sorted(ro)} and columns from {sorted(co)}: the transpose amplitude is computed", construct=src(rets[0].value))
     rw_layering.who_may_call(ctx, res, {"perm"}, {"Permanent.calculate"}, "W-permanent-owner", "the permanent is divided by the factorials of all occupations in one place", 1)
     # herald insertion iterates positions
     ah = ctx.func(HER, "add_heralds_to_state")
